@@ -22,6 +22,10 @@ import (
 
 var c16Col verifc16.Collector
 
+// c16MaxSecParam is the upper bound the library documents (qndleq.MaxSecParam = 1<<16). Kept as a literal so that the
+// harness also builds against a tree that does not have the constant.
+const c16MaxSecParam uint = 1 << 16
+
 type c16Mod struct {
 	name    string
 	p, q, n *big.Int
@@ -135,7 +139,7 @@ func TestVerifC16_qndleq_refcheck(t *testing.T) {
 func TestVerifC16_qndleq(t *testing.T) {
 	r := verifmc.Start(t, "C16", "qndleq")
 	defer r.Finish()
-	r.Rule("base case = (modulus from the safe-prime fixtures, bases (g,h) in {(4,9),(SEED^2,SEED'^2)}, x in {0,1,2,SEED}, security parameter in {128,129,256}, prover randomness stream in 2); " +
+	r.Rule("base case = (modulus from the safe-prime fixtures, bases (g,h) in {(4,9),(SEED^2,SEED'^2)}, x in {0,1,2,SEED}, security parameter in {128,129,256}, prover randomness stream in 2), plus one base case per modulus at the largest accepted security parameter 2^16 (must verify) and at 2^16+1 (Prove must refuse); " +
 		"honest proof must verify; every single alteration of (Z, C, SecParam to another challenge length, g, gx, h, hx, N) that changes the input must be rejected; " +
 		"non-trivial = distinct (base case, alteration). A SecParam that maps to the same challenge byte length is the same proof and is recorded as outcome only")
 	mods := c16Moduli(t, r.Thorough())
@@ -288,8 +292,75 @@ func TestVerifC16_qndleq(t *testing.T) {
 			}
 		}
 	})
+	// The top of the accepted range: an honest proof with SecParam = 2^16 must verify (and its Z+1 / C+1 / SecParam+1
+	// alterations must not); with SecParam = 2^16 + 1 the prover must refuse (the verifier refuses that value: see the
+	// degenerate unit). One base case per modulus: a proof of this size costs ~1 s.
+	for mi, m := range mods {
+		if mi > 0 && !r.Thorough() {
+			break
+		}
+		gh := c16Bases(m)[0]
+		x := c16Exps(m, 0)[3]
+		st := c16Stmt{gh[0], new(big.Int).Exp(gh[0], x, m.n), gh[1], new(big.Int).Exp(gh[1], x, m.n), m.n}
+		for _, sec := range []uint{c16MaxSecParam, c16MaxSecParam + 1} {
+			id := fmt.Sprintf("%s/bases=0/x=SEED/sec=%d/rnd=0", m.name, sec)
+			if !r.Want(id) {
+				continue
+			}
+			var pr *qndleq.Proof
+			var err error
+			pan, what := verifmc.Try(func() {
+				pr, err = qndleq.Prove(verifmc.NewDetReader("c16-qn-max"), x, st.g, st.gx, st.h, st.hx, st.n, sec)
+			})
+			r.Eval(1)
+			if sec > c16MaxSecParam {
+				if !pan && err == nil {
+					ok, _, _ := c16Verify(*pr, st)
+					c16Col.Add("C16|qndleq.Prove|accepts-secparam-above-max|-", id,
+						fmt.Sprintf("%s: Prove accepts a security parameter above 2^16 (Verify of that proof = %v); the parameter is unbounded", id, ok), st.hex())
+				} else {
+					r.Count("prover_refuses_above_max", 1)
+					r.Distinct(id)
+				}
+				continue
+			}
+			if pan || err != nil {
+				c16Col.Add("C16|qndleq.Prove|honest-prover-fails|SecParam=max", id, fmt.Sprintf("%s: panic=%v %s err=%v", id, pan, what, err), st.hex())
+				continue
+			}
+			if ok, _, _ := c16Verify(*pr, st); !ok {
+				c16Col.Add("C16|qndleq.Proof.Verify|honest-proof-rejected|SecParam=max", id, id+": honest proof with the largest accepted security parameter rejected", st.hex())
+				continue
+			}
+			r.Count("honest_verified_at_max_secparam", 1)
+			r.Distinct(id, "honest")
+			for _, a := range []struct {
+				name string
+				p    qndleq.Proof
+			}{
+				{"Z+1", qndleq.Proof{Z: new(big.Int).Add(pr.Z, big.NewInt(1)), C: pr.C, SecParam: sec}},
+				{"C+1", qndleq.Proof{Z: pr.Z, C: new(big.Int).Add(pr.C, big.NewInt(1)), SecParam: sec}},
+				{"SecParam+1", qndleq.Proof{Z: pr.Z, C: pr.C, SecParam: sec + 1}},
+				{"SecParam+8", qndleq.Proof{Z: pr.Z, C: pr.C, SecParam: sec + 8}},
+			} {
+				r.Eval(1)
+				if ok, _, _ := c16Verify(a.p, st); ok {
+					cls := a.name
+					if strings.HasPrefix(cls, "SecParam") {
+						cls = "SecParam"
+					}
+					c16Col.Add("C16|qndleq.Proof.Verify|altered-accepted|"+cls, id+"|"+a.name, id+"|"+a.name+": proof verifies although "+a.name+" differs from the honest value", st.hex())
+				} else {
+					r.Count("altered_rejected", 1)
+					r.Distinct(id + "|" + a.name)
+				}
+			}
+		}
+	}
 	c16Col.Flush(r)
 	r.RequireCounter("honest_verified", 90)
+	r.RequireCounter("honest_verified_at_max_secparam", 1)
+	r.RequireCounter("prover_refuses_above_max", 1)
 	r.RequireCounter("altered_rejected", 3000)
 }
 
@@ -298,7 +369,8 @@ func TestVerifC16_qndleq_degenerate(t *testing.T) {
 	defer r.Finish()
 	zmax := r.Pick(1<<10, 1<<12)
 	r.Rule(fmt.Sprintf("false statements (g, g^x, h, hx') with hx' in {h^(x+1), h^x*h^2, h^(2x+1), 1 (x != 0)} and (g, g^(x+1), h, h^x), x in {1,2,SEED}, all elements in Qn, falsity decided by c16ref.QnDLEQTrue on the known exponents; "+
-		"full product Z in [0,%d) + {N-1, N, 2^64} x C in {0,1} x SecParam in {0,1,8,16,128,256}; plus the real prover run on every false statement with both candidate witnesses and 4 randomness streams; "+
+		"full product Z in [0,%d) + {N-1, N, 2^64} x C in {0,1} x SecParam in {0,1,8,16,128,256}; the upper end of the parameter, SecParam in {^uint(0)-k (k=0..15), 2^63, 2^16, 2^16+1, 2^20} x C in {0,1} x Z in [0,64) + {N-1, N, 2^64} "+
+		"(a makeslice panic counts as fails); plus the real prover run on every false statement with both candidate witnesses and 4 randomness streams; "+
 		"non-trivial = distinct (modulus, false statement, Z, C, SecParam)", zmax))
 	mods := c16Moduli(t, r.Thorough())
 	type fs struct {
@@ -337,13 +409,34 @@ func TestVerifC16_qndleq_degenerate(t *testing.T) {
 		}
 	}
 	secs := []uint{0, 1, 8, 16, 128, 256}
+	// The upper end of the prover-chosen parameter: the challenge length is (SecParam+7)/8 in uint arithmetic, which
+	// wraps to 0 for the 7 largest values. Enumerated with the reduced Z set {0..63, N-1, N, 2^64}: every ^uint(0)-k,
+	// k in 0..15, 2^63, the bound the library now documents (2^16), the bound + 1, and 2^20. Values whose unwrapped
+	// challenge would be allocated for real on a tree without an upper bound (2^26 .. ^uint(0)-16, e.g. 2^32 = 512 MB
+	// per verification in 16 workers) are left out on purpose; 2^63 and ^uint(0)-k for k >= 7 ask for 2^60 bytes, which
+	// the runtime refuses with a recoverable makeslice panic (counted as "fails").
+	var bigSecs []uint
+	for k := uint(0); k < 16; k++ {
+		bigSecs = append(bigSecs, ^uint(0)-k)
+	}
+	bigSecs = append(bigSecs, 1<<63, c16MaxSecParam, c16MaxSecParam+1, 1<<20)
+	const zSmall = 64
 	r.Set("false_statements", len(stmts))
 	r.Set("Z_range", zmax)
 	r.Set("SecParam_alphabet", secs)
-	// the example named in the property text first, so that it is the one kept for the key: (Z=7, C=0, SecParam=0)
-	if s0 := stmts[0]; r.Want(s0.id + "|Z=7,C=0,SecParam=0") {
+	r.Set("SecParam_upper_end_alphabet(Z below 64 + {N-1,N,2^64})", fmt.Sprint(bigSecs))
+	if s0 := stmts[0]; r.Want("!" + s0.id + "|Z=7,C=0,SecParam=18446744073709551615") {
+		if ok, _, _ := c16Verify(qndleq.Proof{Z: big.NewInt(7), C: big.NewInt(0), SecParam: ^uint(0)}, s0.st); ok {
+			r.Violation("C16|qndleq.Proof.Verify|accepts-false-statement|SecParam-wraps-challenge-length", "!"+s0.id+"|Z=7,C=0,SecParam=18446744073709551615",
+				s0.id+": the proof (Z=7, C=0, SecParam=^uint(0)) verifies for the false statement (g, g^x, h, h^(x+1)); the challenge length (SecParam+7)/8 wraps to 0, so the empty challenge equals C=0 for every statement",
+				map[string]interface{}{"statement": s0.st.hex(), "Z": "7", "C": 0, "SecParam": "18446744073709551615", "false_because": s0.id})
+		}
+	}
+	// the example named in the property text, (Z=7, C=0, SecParam=0); the engine keeps the smallest case id per key,
+	// hence the "!" in front of these two representative case ids
+	if s0 := stmts[0]; r.Want("!" + s0.id + "|Z=7,C=0,SecParam=0") {
 		if ok, _, _ := c16Verify(qndleq.Proof{Z: big.NewInt(7), C: big.NewInt(0), SecParam: 0}, s0.st); ok {
-			r.Violation("C16|qndleq.Proof.Verify|accepts-false-statement|SecParam<128", s0.id+"|Z=7,C=0,SecParam=0",
+			r.Violation("C16|qndleq.Proof.Verify|accepts-false-statement|SecParam<128", "!"+s0.id+"|Z=7,C=0,SecParam=0",
 				s0.id+": the proof (Z=7, C=0, SecParam=0) verifies for the false statement (g, g^x, h, h^(x+1)); the verifier takes the challenge length from Proof.SecParam, so an empty challenge equals C=0 for every statement",
 				map[string]interface{}{"statement": s0.st.hex(), "Z": "7", "C": 0, "SecParam": 0, "false_because": s0.id})
 		}
@@ -358,12 +451,17 @@ func TestVerifC16_qndleq_degenerate(t *testing.T) {
 			zs = append(zs, big.NewInt(int64(z)))
 		}
 		zs = append(zs, new(big.Int).Sub(s.m.n, big.NewInt(1)), new(big.Int).Set(s.m.n), new(big.Int).Lsh(big.NewInt(1), 64))
-		for _, sec := range secs {
+		zsSmall := append(append([]*big.Int{}, zs[:zSmall]...), zs[len(zs)-3:]...)
+		for seci, sec := range append(append([]uint{}, secs...), bigSecs...) {
 			if r.Expired() {
 				return
 			}
+			zlist := zs
+			if seci >= len(secs) {
+				zlist = zsSmall
+			}
 			for c := int64(0); c < 2; c++ {
-				for _, z := range zs {
+				for _, z := range zlist {
 					id := fmt.Sprintf("%s|Z=%s,C=%d,SecParam=%d", s.id, z.Text(10), c, sec)
 					if !r.Want(id) {
 						continue
@@ -371,11 +469,17 @@ func TestVerifC16_qndleq_degenerate(t *testing.T) {
 					r.Eval(1)
 					ok, pan, what := c16Verify(qndleq.Proof{Z: z, C: big.NewInt(c), SecParam: sec}, s.st)
 					if pan {
-						r.Outcome("false-statement:panic")
+						// no verdict "true" was returned: counted as fails (a panic on prover-chosen input is C10's subject)
+						r.Outcome("false-statement:panic(" + verifmc.PanicClass(what) + ")")
+						r.Count("false_statement_panic_counted_as_fails", 1)
 						r.Set("panic_example", id+": "+what)
+						r.Distinct(id)
 						continue
 					}
 					r.Count("false_statement_cases", 1)
+					if seci >= len(secs) {
+						r.Count("upper_end_secparam_cases", 1)
+					}
 					r.Distinct(id)
 					if !ok {
 						continue
@@ -383,10 +487,12 @@ func TestVerifC16_qndleq_degenerate(t *testing.T) {
 					r.Count("false_statement_accepted", 1)
 					r.Outcome(fmt.Sprintf("false-statement:ACCEPTED(SecParam=%d)", sec))
 					cls := "SecParam<128"
-					if sec >= 128 {
+					if sec > ^uint(0)-7 {
+						cls = "SecParam-wraps-challenge-length"
+					} else if sec >= 128 {
 						cls = "SecParam>=128"
 					}
-					rp := map[string]interface{}{"statement": s.st.hex(), "Z": z.Text(10), "C": c, "SecParam": sec, "false_because": s.id}
+					rp := map[string]interface{}{"statement": s.st.hex(), "Z": z.Text(10), "C": c, "SecParam": fmt.Sprint(sec), "false_because": s.id}
 					c16Col.Add("C16|qndleq.Proof.Verify|accepts-false-statement|"+cls, id,
 						fmt.Sprintf("%s: the proof (Z=%s, C=%d, SecParam=%d) verifies for a false statement; the verifier takes the challenge length from Proof.SecParam", s.id, z.Text(10), c, sec), rp)
 				}
@@ -443,5 +549,6 @@ func TestVerifC16_qndleq_degenerate(t *testing.T) {
 		r.NotExhaustive("quick tier: bases (4,9) only and Z below 2^10 (thorough: both base pairs, a 2048-bit modulus, Z below 2^12)")
 	}
 	r.RequireCounter("false_statement_cases", 100000)
+	r.RequireCounter("upper_end_secparam_cases", 10000)
 	r.RequireCounter("prover_on_false_cases", 100)
 }
